@@ -224,6 +224,12 @@ pub mod inflight {
     }
 }
 
+/// The process was killed by a signal or ended with a code no check path produces.
+pub fn died_abnormally(st: &std::process::ExitStatus) -> bool {
+    use std::os::unix::process::ExitStatusExt;
+    st.signal().is_some() || !matches!(st.code(), Some(0) | Some(1) | Some(2))
+}
+
 pub struct Found {
     pub index: u64,
     pub seed: u64,
